@@ -160,7 +160,7 @@ def _make_cache(CN, P, ZI):
             out += [c.field_addr(s, P, PROCS[P][k]) for k in ('zi', 'key', 'filled', 'count')]
         return out
 
-    contract(CN + '::getZoneProcessor(void const*)', props=['C08'], requires=_gzp_pre, ensures=_gzp_post, assigns=_gzp_assigns, unroll=SIZE + 1)
+    contract(CN + '::getZoneProcessor(void const*)', props=['C08', 'C09'], requires=_gzp_pre, ensures=_gzp_post, assigns=_gzp_assigns, unroll=SIZE + 1)
 
 
 for _cn, (_p, _zi) in CACHES.items():
